@@ -12,7 +12,8 @@ RULE = ("scripted-RNG runs: rnd_exp, rnd_plaintext, rnd on num-bigint for q=11,2
         "Gallina byte-level model; malachite: 3000 (quick) / 20000 seeds on q=11 must cover exactly [0,q) / [0,q-2]; OS entropy: "
         "repeated identical calls give different ciphertexts / commitments / proofs, re-encryption exponents of one shuffle are "
         "distinct and non-zero, no commitment equals a public base, two proofs by one secret have different commitments (2048 bits, ristretto); "
-        "every permutation of N<=4 is produced by some script (all N! reachable)")
+        "every permutation of N<=4 is produced by some script (all N! reachable)"
+        " Added in session 3: permutations of 2048/3000 items tied to the model and of 10000/70000 items against a reference sampler; four threads of one process must draw different randomness; q of 8 and 10 bits;")
 
 
 def ref_fisher_yates(n, stream):
